@@ -623,10 +623,14 @@ def _load_from_disk(file_name):
 def _save_to_disk(file_name, obj, overwrite=False):
     if not overwrite and os.path.isfile(file_name):
         raise RuntimeError(f"{file_name} already exists")
-    if overwrite and os.path.isfile(file_name):
-        os.remove(file_name)
-    with open(file_name, "wb") as f:
+    # Write to a temporary file and move it into place, such that a crash never
+    # leaves a partially written or missing file behind. The temporary name
+    # must not match the pattern used for listing sample files.
+    base_dir, base_file = os.path.split(file_name)
+    tmp = os.path.join(base_dir, ".tmp." + base_file)
+    with open(tmp, "wb") as f:
         pickle.dump(obj, f, pickle.HIGHEST_PROTOCOL)
+    os.replace(tmp, file_name)
 
 
 def _field2hdf5(file_handle, obj, name):
